@@ -57,6 +57,21 @@ BODY = (
 )
 
 
+def call_source(case: dict[str, Any]) -> str:
+    nil = case.get("nil_args", False)  # every argument is given as nil: a parameter bound to nil is bound all the same
+    tag = case.get("tag", "")
+    pos = ["nil" if nil else f"'A{i}{tag}'" for i in range(case["npos"])]
+    kws = [f"{k}: " + ("nilvar" if nil else f"'K{j}{tag}'") for j, k in enumerate(case["kws"])]
+    if case.get("kw_first"):
+        call_args = kws + pos
+    else:
+        call_args = pos + kws
+    call = "{% call 'm'" + ((", " if case.get("lead_comma") else " ") + ", ".join(call_args) if call_args else "") + " %}"
+    if case.get("in_loop"):
+        call = "{% for t in (1..2) %}" + call + "{% endfor %}"
+    return call
+
+
 def macro_source(case: dict[str, Any]) -> str:
     params = []
     for i, d in enumerate(case["params"]):
@@ -68,19 +83,17 @@ def macro_source(case: dict[str, Any]) -> str:
             params.append(f"{PNAMES[i]}: dv")
     sep = ", " if case.get("comma", True) else " "
     head = "{% macro 'm'" + ((sep if case.get("lead_comma") else " ") + ", ".join(params) if params else "") + " %}"
-    nil = case.get("nil_args", False)  # every argument is given as nil: a parameter bound to nil is bound all the same
-    pos = ["nil" if nil else f"'A{i}'" for i in range(case["npos"])]
-    kws = [f"{k}: " + ("nilvar" if nil else f"'K{j}'") for j, k in enumerate(case["kws"])]
-    if case.get("kw_first"):
-        call_args = kws + pos
-    else:
-        call_args = pos + kws
-    call = "{% call 'm'" + ((", " if case.get("lead_comma") else " ") + ", ".join(call_args) if call_args else "") + " %}"
+    call = "".join(call_source(dict(case, **c)) for c in case["calls"]) if case.get("calls") else call_source(case)
     # dv is assigned AFTER the macro definition: defaults are bound late, in the caller's scope at call time
     return "{% assign dv = 'early' %}{% assign loc = 'LOCAL' %}" + head + BODY + "{% endmacro %}{% assign dv = 'late' %}" + call
 
 
 def macro_expected(case: dict[str, Any]):
+    if case.get("calls"):
+        # several calls of one definition in one render: each call binds afresh, nothing a call bound is left for the next one
+        outs = [macro_expected(dict({k: v for k, v in case.items() if k != "calls"}, **c)) for c in case["calls"]]
+        return None if any(o is None for o in outs) else "".join(o * (2 if c.get("in_loop") else 1) for o, c in zip(outs, case["calls"]))
+    tag = case.get("tag", "")
     n = len(case["params"])
     kws = case["kws"]
     if len(set(kws)) != len(kws):
@@ -89,14 +102,14 @@ def macro_expected(case: dict[str, Any]):
     npos = case["npos"]
     nil = case.get("nil_args", False)
     for i in range(min(n, npos)):
-        bound[PNAMES[i]] = "" if nil else f"A{i}"
-    excess_args = ["" if nil else f"A{i}" for i in range(n, npos)]
+        bound[PNAMES[i]] = "" if nil else f"A{i}{tag}"
+    excess_args = ["" if nil else f"A{i}{tag}" for i in range(n, npos)]
     excess_kw = []
     for j, k in enumerate(kws):
         if k in PNAMES[:n]:
-            bound[k] = "" if nil else f"K{j}"
+            bound[k] = "" if nil else f"K{j}{tag}"
         else:
-            excess_kw.append((k, "" if nil else f"K{j}"))
+            excess_kw.append((k, "" if nil else f"K{j}{tag}"))
     vals = []
     for i in range(3):
         p = PNAMES[i]
@@ -229,6 +242,8 @@ def judge(ctx: core.Ctx, case: dict[str, Any]) -> None:
 
 
 def classify_macro(case: dict[str, Any]) -> str:
+    if case.get("calls"):
+        return "several-calls-of-one-definition"
     n = len(case["params"])
     parts = []
     if case["npos"] > n:
@@ -291,6 +306,18 @@ def cases(ctx: core.Ctx):
                     yield {"kind": "macro", "params": list(params), "npos": npos, "kws": list(kws), "kw_first": (idx % 5 == 0), "lead_comma": (idx % 7 == 0), "async": (idx % 11 == 0)}
                     if all(d == "none" for d in params) and (npos or kws) and npos <= len(params) and idx % 3 == 0:  # (how join prints surplus nil arguments is not this property's subject)
                         yield {"kind": "macro", "params": list(params), "npos": npos, "kws": list(kws), "kw_first": False, "lead_comma": False, "async": (idx % 2 == 0), "nil_args": True}
+    # histories: two or three calls of one definition in one render, every ordered pair of call shapes (one of them possibly in a loop)
+    shapes = [{"npos": npos, "kws": list(kws)} for npos in range(4) for kws in ((), ("p0",), ("p1",), ("p2",), ("p1", "p0"), ("z0",))]
+    for n in range(1, 4):
+        for params in itertools.product(["none", "lit", "var"], repeat=n):
+            for c1, c2 in itertools.product(shapes, shapes):
+                idx += 1
+                if idx % ctx.nshards != ctx.shard or (ctx.tier == "quick" and n == 3 and idx % 3):
+                    continue
+                calls = [dict(c1, tag="a", in_loop=(idx % 5 == 0)), dict(c2, tag="b")]
+                if idx % 4 == 0:
+                    calls.append(dict(shapes[idx % len(shapes)], tag="c"))
+                yield {"kind": "macro", "params": list(params), "npos": 0, "kws": [], "calls": calls, "async": (idx % 11 == 0)}
     ctx.extra["exhaustive"] = True
     for _ in range(ctx.budget(4000, 400_000)):
         yield {"kind": "with", "ops": gen_with(rng), "async": rng.random() < 0.1}
